@@ -288,6 +288,74 @@ pub fn check(c: &Case, st: &mut Stats) -> Check {
 }
 
 // ---------------------------------------------------------------------------------------
+// crowds: a connection is not affected by any number of other connections opened meanwhile
+
+#[derive(Clone, Debug, Serialize, Deserialize, PartialEq)]
+pub struct CrowdCase {
+    pub scn: Scenario,
+    pub sport: u16,
+    pub dport: u16,
+    pub first: AppReq,
+    pub second: Hex,
+    /// acknowledge the responder's answer to the first segment (as a real client does) or keep
+    /// acknowledging cookie+1
+    pub ack_advances: bool,
+    pub others: u32,
+}
+
+fn crowd_run(c: &CrowdCase, others: u32) -> Result<(Out, Out), Failure> {
+    Sut::reset();
+    let sut = Sut::new(&c.scn.cfg);
+    let net = &c.scn.net;
+    let v = Flow { net: net.clone(), sport: c.sport, dport: c.dport };
+    let k = learn_cookie(&sut, &v, 500).map_err(Failure::new)?;
+    let fb = c.first.bytes(true);
+    let o1 = sut.frame(&v.data(501, k.wrapping_add(1), &fb));
+    let answered: u32 = match &o1 {
+        Out::Reply(r) => decode_reply(r).ok().and_then(|d| d.tcp().map(|t| t.payload.len() as u32)).unwrap_or(0),
+        _ => 0,
+    };
+    for i in 0..others {
+        let f = Flow { net: net.clone(), sport: (i as u16) ^ 0x3333, dport: 7000u16.wrapping_add((i >> 16) as u16) };
+        if (f.sport, f.dport) == (c.sport, c.dport) {
+            continue;
+        }
+        if let Ok(kk) = learn_cookie(&sut, &f, i) {
+            let _ = sut.frame(&f.data(i.wrapping_add(1), kk.wrapping_add(1), b"hello"));
+        }
+    }
+    let ack = if c.ack_advances { k.wrapping_add(1).wrapping_add(answered) } else { k.wrapping_add(1) };
+    let o2 = sut.frame(&v.data(501u32.wrapping_add(fb.len() as u32), ack, &c.second));
+    Ok((o1, o2))
+}
+
+pub fn crowd_check(c: &CrowdCase, st: &mut Stats) -> Check {
+    st.eval();
+    let (a1, a2) = crowd_run(c, c.others)?;
+    let (b1, b2) = crowd_run(c, 0)?;
+    st.frames(6 + 2 * c.others as u64);
+    st.class(&format!("crowd:{}-other-connections:victim-{}:{}", c.others, c.first.kind(), if c.ack_advances { "ack-advances" } else { "ack-stays" }));
+    st.nontrivial(&(c.others, c.first.kind(), c.ack_advances));
+    for o in [&a1, &a2, &b1, &b2] {
+        if let Out::Panic(p) = o {
+            return Err(Failure::keyed(p.key(), format!("panic: {} {}", p.file, p.msg)));
+        }
+    }
+    vensure!(norm(&a1) == norm(&b1), "first segment answered differently in two identical runs");
+    if norm(&a2) != norm(&b2) {
+        vfail!(
+            "the second segment of a connection ({} request first, {}) is answered differently when {} other connections are opened in between: {} vs {}",
+            c.first.kind(),
+            if c.ack_advances { "acknowledging the answer" } else { "ack unchanged" },
+            c.others,
+            a2.brief().chars().take(200).collect::<String>(),
+            b2.brief().chars().take(200).collect::<String>()
+        );
+    }
+    Ok(())
+}
+
+// ---------------------------------------------------------------------------------------
 // directed: two distinct 4-tuples with equal cookies (birthday search)
 
 #[derive(Clone, Debug, Serialize, Deserialize, PartialEq)]
@@ -358,11 +426,19 @@ impl Prop for C08 {
         "C08"
     }
     fn rule(&self) -> &'static str {
-        "metamorphic over histories: 3 TCP flows (two with adjacent source ports, one differing from the first only in the destination address; data segments that acknowledge ANOTHER flow's cookie+1) each with its own byte stream (protocol requests, two requests back to back, garbage) delivered in generated chunks, interleaved in generated order with wrong-ack data segments, SYNs non-data TCP segments whose seq/ack are another flow's cookie, traffic sharing the flows' IP or MAC (ARP / NS / echo / SYN / UDP from the same IP with another MAC and vice versa), ICMP / ICMPv6 error messages quoting the responder's own SYN-ACK or UDP answer to the client (all error types and codes), answerable UDP datagrams from the flows' client with fixed ports, and unrelated noise (ARP, ICMP, ND, UDP application traffic, raw and lying-header frames, SYN floods on other ports). For EVERY position p of the history: the reply recorded at p must equal (after masking HTTP Date / SMB times) the reply to the same frame when the connection table is reset and only the accepted data segments of p's own 4-tuple that precede p are replayed. Directed: two distinct 4-tuples with equal cookie found by a birthday search through the responder's cookie function. Non-trivial = at p another flow has accepted data and p is answered or is a data segment; distinct by case hash."
+        "metamorphic over histories: 3 TCP flows (two with adjacent source ports, one differing from the first only in the destination address; data segments that acknowledge ANOTHER flow's cookie+1) each with its own byte stream (protocol requests, two requests back to back, garbage) delivered in generated chunks, interleaved in generated order with wrong-ack data segments, SYNs non-data TCP segments whose seq/ack are another flow's cookie, traffic sharing the flows' IP or MAC (ARP / NS / echo / SYN / UDP from the same IP with another MAC and vice versa), ICMP / ICMPv6 error messages quoting the responder's own SYN-ACK or UDP answer to the client (all error types and codes), answerable UDP datagrams from the flows' client with fixed ports, and unrelated noise (ARP, ICMP, ND, UDP application traffic, raw and lying-header frames, SYN floods on other ports). For EVERY position p of the history: the reply recorded at p must equal (after masking HTTP Date / SMB times) the reply to the same frame when the connection table is reset and only the accepted data segments of p's own 4-tuple that precede p are replayed. Crowds: a connection whose first segment was a complete request gets the same answer to its second segment (acknowledging the first answer or not) with 1100 / 4200 / 9000 / 66000 other connections validated in between as with none. Directed: two distinct 4-tuples with equal cookie found by a birthday search through the responder's cookie function. Non-trivial = at p another flow has accepted data and p is answered or is a data segment; distinct by case hash."
     }
     fn run(&self, ctx: &mut RunCtx) {
         let n = ctx.share(ctx.tier.n(200_000, 3_000_000));
         ctx.run_generated("isolation", n, case_strategy(), check);
+        let nc = ctx.share(ctx.tier.n(24, 240));
+        ctx.run_generated(
+            "crowd",
+            nc,
+            (scenario_quiet(Fam::Any), 1024u16..30000, port(), app_req(), prop_oneof![app_req().prop_map(|a| Hex(a.bytes(true))), vec(any::<u8>(), 1..40).prop_map(Hex)], any::<bool>(), prop::sample::select(vec![1100u32, 4200, 9000, 66000]))
+                .prop_map(|(scn, sport, dport, first, second, ack_advances, others)| CrowdCase { scn, sport, dport, first, second, ack_advances, others }),
+            crowd_check,
+        );
         if ctx.worker == 0 || ctx.tier == Tier::Thorough {
             let key = [ctx.seed ^ (ctx.worker as u64) << 8, 0x5eed];
             match birthday(key, ctx.tier.n(400_000, 600_000) as u32) {
@@ -378,6 +454,7 @@ impl Prop for C08 {
         let bad = |e: serde_json::Error| Failure::new(format!("bad case: {}", e));
         match stream {
             "collision" => collision_check(&serde_json::from_value(case.clone()).map_err(bad)?, st),
+            "crowd" => crowd_check(&serde_json::from_value(case.clone()).map_err(bad)?, st),
             _ => check(&serde_json::from_value(case.clone()).map_err(bad)?, st),
         }
     }
